@@ -160,6 +160,50 @@ func runC05(tier string) int {
 			r.Sample(map[string]interface{}{"source": src, "gotos_unoptimized": gotosN, "gotos_optimized": gotosO, "product_states": st.States})
 		}
 	})
+	// Files with hoisted data and several statement kinds: same hoisted data and user-visible labels in both forms.
+	anyChunk := regexp.MustCompile(`^[A-Za-z0-9_]+_[0-9]+$`)
+	for _, fp := range fileLevelPrograms(tier) {
+		ro := comp.Compile(fp.Src, comp.Opts{Optimize: true})
+		rn := comp.Compile(fp.Src, comp.Opts{Optimize: false})
+		if ro.Err != nil || rn.Err != nil {
+			continue
+		}
+		r.Add("evaluations", 1)
+		r.Add("file_level_programs", 1)
+		if ro.Out != rn.Out {
+			r.Add("nontrivial", 1)
+		}
+		isCh := func(s string) bool {
+			if !anyChunk.MatchString(s) {
+				return false
+			}
+			for _, o := range fp.Owners {
+				if strings.HasPrefix(s, o+"_") && strings.Trim(s[len(o)+1:], "0123456789") == "" {
+					return true
+				}
+			}
+			return false
+		}
+		probO, stableO, visO, gotosO := staticOptClauses(ro.Out, isCh)
+		probN, stableN, visN, gotosN := staticOptClauses(rn.Out, isCh)
+		var what []string
+		for _, p := range append(probO, probN...) {
+			what = append(what, p)
+		}
+		if strings.Join(visO, "\n") != strings.Join(visN, "\n") {
+			what = append(what, "user-visible labels / hoisted data labels differ between the two forms")
+		}
+		if strings.Join(stableO, "\n") != strings.Join(stableN, "\n") {
+			what = append(what, "the two forms differ in more than order, generated gotos and generated labels (hoisted data included)")
+		}
+		if gotosO > gotosN {
+			what = append(what, "optimized form has more generated gotos")
+		}
+		for _, w := range what {
+			src := fp.Src
+			r.Report(harness.Violation{Sig: "C05:file:" + firstWords(w, 3), Summary: fmt.Sprintf("%s: %s", fp.Desc, w), Replay: map[string]interface{}{"source": src, "optimized": ro.Out, "unoptimized": rn.Out, "problem": w}})
+		}
+	}
 	r.Set("traces_validated_against_impl", r.Get("transitions"))
 	r.Assume("generated sub-labels are exactly the labels of the form <script>_<n>; user names never imitate them (generator guarantee)",
 		"clause readings: 'only reorders code and removes jumps' = the multiset of lines other than generated gotos and generated labels is identical and the optimized form has no more generated gotos")
